@@ -107,10 +107,17 @@ where
     where
         T: Ord,
     {
-        let a = parse_filesize(&self.values[i].to_string()).unwrap_or(0);
-        let b = parse_filesize(&other.values[i].to_string()).unwrap_or(0);
+        // plain numbers may be negative or fractional; formatted sizes ("1.5MiB") go through parse_filesize
+        let number = |s: String| -> f64 {
+            s.parse::<f64>()
+                .ok()
+                .or_else(|| parse_filesize(&s).map(|size| size as f64))
+                .unwrap_or(0.0)
+        };
+        let a = number(self.values[i].to_string());
+        let b = number(other.values[i].to_string());
 
-        a.cmp(&b)
+        a.partial_cmp(&b).unwrap_or(Ordering::Equal)
     }
 
     #[inline]
